@@ -10,7 +10,7 @@ CLAIMS = {
  'C03': ('Verus: one unit cost per lot used by same-day, 30-day and pooling; same-day legs consume lots proportionally so leg cost == sum(consumed_k * unit_k); pooled cost == cost of exactly the shares marked in_pool; S104 leg cost leaves the pool; capital-return/accumulation offsets sum to exactly the adjustment.',
          'END-TO-END (INV_COST closed): Matcher::process carries, through every loop of the day cycle and for every security, legs + pool + unallocated - pending 30-day claims == cost of all lots, with every lot equal to its BUY line incl. its capital-return offset (inv_lots); at the end nothing is unallocated and no claim is pending, so cost of all legs + closing pool cost == sum over the lots of quantity x unit cost. Relative to the PREPROCESSED list (that same-day merging conserves consideration and fees is not decided), to quantity x unit cost == quantity x price + fees + offset (false only for a zero-quantity BUY with fees, whose fees the tool drops), and to A-dec (28-digit rounding of * and / is not modelled). That every BUY has exactly one lot is proved per day (buys_added_all), not yet as a global bijection.'),
  'C05': ('Verus: process_sell returns Err before any state change when the sale exceeds same-day availability + pool quantity; legs of an accepted sale sum to the quantity sold.',
-         'Decides the form of the holding check and no-partial-state of the core; the iff with the whole-history cover condition needs INV_POS (not machine-checked); CLI/MCP front-ends are A-ext.'),
+         'Decides the form of the holding check and no-partial-state of the core. The soundness obligation C05.sound (an accepted sale is covered once shares already matched with later purchases are subtracted) is written, FAILS on the current tree and is reported as KNOWN-FINDING F2 with a replayed witness ledger (known-findings.json); the completeness direction and the whole-history cover condition need INV_POS (not machine-checked); CLI/MCP front-ends are A-ext.'),
  'C09': ('Verus frame clauses: every mutating matcher function changes ledgers/pools only at the transaction\'s own ticker; the look-ahead changes claims only at same-ticker buys in the window.',
          'Frames of each step; the projection equality report(all) = (+) report(S) is the L3 closure and is not machine-checked; ticker case folding in parser/serde is A-ext.'),
  'C10': ('Verus: SPLIT multiplies and UNSPLIT divides the pool quantity only (cost, ledgers, legs, other tickers untouched); look-ahead quantities are rescaled by the cumulative ratio and costed in buy-time units.',
